@@ -92,6 +92,9 @@ def run(ctx, rep):
     from . import c02
     c02.check_raw_values(ctx, Renamed(rep, to="R3.7"), "R3.7", c02.FILTER)
     c02.r26(ctx, Renamed(rep, to="R3.7"))
+    rep.rule("R3.8", "feasibility is judged on the user's constraints: the reduced / scaled linear system is the user's system in the solver's variables (see C10 R10.1)")
+    from . import c10
+    c10.run(ctx, Renamed(rep, to="R3.8"), r1="R3.8", only_transform=True)
     rep.rule("R3.6", "the settings of the filter/history/callback reach Problem through the right parameters (no swapped arguments)")
     k = common.check_swapped_args(ctx, rep, "R3.6", lambda g: g.cls is not None and g.cls.name == "Problem" or g.name == "_build_result")
     from . import c19
@@ -317,6 +320,33 @@ def r31(ctx, rep):
         ev_fail.append(f"filter_size=2: entries after inserting into [q0, q1] are {X}, expected ['q1', 'p'] (oldest evicted)")
     if not (len(F) == len(C) == len(X)):
         ev_fail.append("lists out of step after eviction")
+    # bounded filter, exhaustively: with two retained entries and filter_size = 2 the
+    # result must be (dominated entries removed, newcomer appended, THEN the oldest
+    # evicted while more than filter_size remain) - the eviction never decides
+    # which dominated entries go
+    n_b = 0
+    for (p_, q1) in states():
+        for (p2, q2) in states():
+            if not same(p_, p2):
+                continue
+            if dominates(q1, q2) or dominates(q2, q1):
+                continue        # not a reachable filter content
+            n += 1
+            n_b += 1
+            try:
+                F, C, X = simulate(frag, E, p_, [q1, q2], 2, names)
+            except Exception:
+                continue        # reported by the unbounded table above
+            if any(dominates(q, p_) for q in (q1, q2)):
+                want = ["q0", "q1"]
+            else:
+                want = [f"q{k}" for k, q in enumerate((q1, q2)) if not dominates(p_, q)] + ["p"]
+                while len(want) > 2:
+                    want.pop(0)
+            if X != want and not ev_fail:
+                ev_fail.append(f"filter_size=2, retained [{fmt_pt(q1)}, {fmt_pt(q2)}], new point {fmt_pt(p_)}: entries afterwards are {X}, expected {want} "
+                               "(dominated entries are removed first, only then is the oldest entry evicted)")
+    rep.extra["bounded_filter_states"] = n_b
 
     # group failures by message kind for the report (keyed by the first
     # failing abstract state, stable under formatting changes)
@@ -529,6 +559,9 @@ def r32(ctx, rep):
 
 
 # ---------------------------------------------------------------------------
+FILTER_FIELDS3 = ("_fun_filter", "_maxcv_filter", "_x_filter")
+
+
 def check_nan_reductions(ctx, rep, rule):
     """every nanmin/nanmax(A) in best_eval is guarded by a test that A has a
     non-NaN entry (not all(isnan(A)) / any(isfinite(A)))"""
@@ -574,7 +607,24 @@ def check_nan_reductions(ctx, rep, rule):
             rep.bad(rule, desc)
             rep.finding(rule, be, norm(node), node.lineno,
                         f"`{norm(node)}` is not guarded by a test that `{A}` has a defined entry (the guard tests a different array): an all-NaN selection gives NaN and an empty candidate list (IndexError escapes from minimize)")
-    if n < 4:
+    # a plain min/max over a whole filter array (not restricted by a mask of defined
+    # entries) returns NaN as soon as one entry is NaN: the comparison `<= nan` selects nothing
+    plain = 0
+    for node in ast.walk(be.node):
+        if isinstance(node, ast.Call) and (dotted(node.func) or "").split(".")[-1] in ("min", "max", "amin", "amax") and node.args and isinstance(node.args[0], ast.Name) \
+                and (dotted(node.func) or "").split(".")[0] in ("np", "numpy"):
+            arr = node.args[0].id
+            # arrays built from the filter lists (np.array(self._X_filter)) or derived with full_like
+            is_filter_arr = False
+            for st in ast.walk(be.node):
+                if isinstance(st, ast.Assign) and any(isinstance(x, ast.Name) and x.id == arr for x in st.targets) and (mentions(st.value, *FILTER_FIELDS3) or (isinstance(st.value, ast.Call) and (dotted(st.value.func) or "").split(".")[-1] == "full_like")):
+                    is_filter_arr = True
+            if is_filter_arr:
+                plain += 1
+                rep.bad(rule, f"best_eval:{node.lineno} `{norm(node)[:50]}`")
+                rep.finding(rule, be, norm(node), node.lineno,
+                            f"`{norm(node)}` reduces a whole filter array that can contain NaN with a NaN-propagating function: the result is NaN, `<= nan` selects no entry and the index of the last candidate raises IndexError (escapes from minimize)")
+    if n + plain < 4:
         raise AnalysisError(f"only {n} nan-reductions in best_eval (floor 4)")
 
 
